@@ -3,7 +3,7 @@ import copy
 import copyreg
 import functools
 import inspect
-from threading import RLock
+from threading import Lock, RLock
 from types import ModuleType
 from typing import Any, Callable, Dict, Optional, Set, Type, Union
 
@@ -51,18 +51,25 @@ class _modules_copyable:
     context switches.
     """
 
-    def __new__(cls, *args, **kwargs):
-        """
-        Make this class a singleton (there exists at most one instance).
-        """
-        if not hasattr(cls, "__instance__"):
-            cls.__instance__ = super().__new__(cls, *args, **kwargs)
-        return cls.__instance__
+    __instance__ = None
+    __instance_lock__ = Lock()
 
-    def __init__(self):
-        self.lock = RLock()
-        self.refcount = 0
-        self.patched_table = False
+    def __new__(cls):
+        """
+        Make this class a singleton (there exists at most one instance). The
+        shared state is initialised exactly once, before the instance is
+        published, so that (nested or concurrent) uses never reset the lock, the
+        reference count or the record of whether we patched the dispatch table.
+        """
+        if cls.__instance__ is None:
+            with cls.__instance_lock__:
+                if cls.__instance__ is None:
+                    instance = super().__new__(cls)
+                    instance.lock = RLock()
+                    instance.refcount = 0
+                    instance.patched_table = False
+                    cls.__instance__ = instance
+        return cls.__instance__
 
     def __enter__(self):
         with self.lock:
